@@ -1,5 +1,7 @@
 /-
-  C08 — finding E2 as a THEOREM PAIR (was: prose residual "callback bodies racing on two workers").
+  C08 — finding E2r as a THEOREM PAIR (was: prose residual "callback bodies racing on two workers").
+  STATUS: the `gather_nonatomic_*` / `gather_terminates_nonatomic_refuted` theorems are about the machine /repo had BEFORE fix
+  6013951; the code as shipped is `RuntimeRaceShipped.lean` / `Props/C08_race_shipped.lean` (variant re-extracted on every run).
 
   * `gather_nonatomic_lost_update` / `gather_terminates_nonatomic_refuted`: with the read-modify-write of
     `done += 1` split into LOAD and STORE on two workers there is an interleaving after which BOTH
@@ -26,7 +28,7 @@ def GatherTerminatesNonAtomic : Prop :=
 
 /-- **gather_nonatomic_lost_update** (refutation witness). Two pending futures, workers 0 and 1:
     `LOAD₀ LOAD₁ STORE₀ STORE₁ TEST₀ TEST₁`. Both callbacks return, one increment is lost
-    (`done = 1`, `target = 2`) and `outer.set_result` was never called. -/
+    (`done = 1`, `target = 2`) and `outer.set_result` was never called. (PRE-FIX machine: /repo takes the increment under a lock since fix 6013951 - `gather_shipped_sets_outer_once`, `gather_shipped_variant` in Props/C08_race_shipped.lean are about the code as shipped; this theorem documents why the fix was needed.) -/
 theorem gather_nonatomic_lost_update :
     let s := run (St.init 0 2) [0, 1, 0, 1, 0, 1]
     s.allFinished = true ∧ s.done = 1 ∧ s.target = 2 ∧ s.sets = 0 ∧ s.outerSet = false := by
@@ -34,7 +36,7 @@ theorem gather_nonatomic_lost_update :
 
 /-- **gather_nonatomic_lost_update_preempted** — the interleaving that `probe_gather_lost_update` (harness/corr/C08.py)
     forces on the REAL `gather_futures` with an opcode tracer: worker 0 is preempted between its LOAD and its STORE,
-    worker 1 runs its whole callback in between (`LOAD₀ | LOAD₁ STORE₁ TEST₁ | STORE₀ TEST₀`). Same outcome. -/
+    worker 1 runs its whole callback in between (`LOAD₀ | LOAD₁ STORE₁ TEST₁ | STORE₀ TEST₀`). Same outcome. (PRE-FIX machine: /repo takes the increment under a lock since fix 6013951 - `gather_shipped_sets_outer_once`, `gather_shipped_variant` in Props/C08_race_shipped.lean are about the code as shipped; this theorem documents why the fix was needed.) -/
 theorem gather_nonatomic_lost_update_preempted :
     let s := run (St.init 0 2) [0, 1, 1, 1, 0, 0]
     s.allFinished = true ∧ s.done = 1 ∧ s.target = 2 ∧ s.outerSet = false := by
@@ -44,14 +46,14 @@ theorem gather_nonatomic_lost_update_preempted :
     afterwards, nothing is lost -/
 example : (lrun (St.init 0 2) [0, 1, 1, 1, 0, 0, 1, 1, 1]).outerSet = true := by decide
 
-/-- the same with a plain (non-future) entry in the source list and three workers: two updates lost -/
+/-- the same with a plain (non-future) entry in the source list and three workers: two updates lost (PRE-FIX machine: /repo takes the increment under a lock since fix 6013951 - `gather_shipped_sets_outer_once`, `gather_shipped_variant` in Props/C08_race_shipped.lean are about the code as shipped; this theorem documents why the fix was needed.) -/
 theorem gather_nonatomic_lost_update_3 :
     let s := run (St.init 1 3) [0, 1, 2, 0, 1, 2, 0, 1, 2]
     s.allFinished = true ∧ s.done = 2 ∧ s.target = 4 ∧ s.outerSet = false := by
   decide
 
 /-- **gather_terminates_nonatomic_refuted.** `gather_terminates` is FALSE once callback bodies interleave
-    between the LOAD and the STORE of `done += 1`. -/
+    between the LOAD and the STORE of `done += 1`. (PRE-FIX machine: /repo takes the increment under a lock since fix 6013951 - `gather_shipped_sets_outer_once`, `gather_shipped_variant` in Props/C08_race_shipped.lean are about the code as shipped; this theorem documents why the fix was needed.) -/
 theorem gather_terminates_nonatomic_refuted : ¬ GatherTerminatesNonAtomic := by
   intro h
   have := h 0 2 [0, 1, 0, 1, 0, 1] (by decide)
